@@ -92,6 +92,8 @@ def case(draw):
             subpath2 = draw(st.sampled_from(others))
     return {'tree': spec, 'manifests': rendered, 'muts': muts,
             'subpath': subpath, 'subpath2': subpath2,
+            # library: the sub-path spelled 'sub/' instead of 'sub'
+            'slash': draw(st.integers(0, 3)) == 0,
             'second_first': draw(st.booleans()),
             'api': api, 'policy': policy,
             'salt': draw(st.integers(0, 99)), 'j': draw(st.integers(0, 3)),
@@ -176,8 +178,11 @@ def run_case(desc):
         order = shim.ScandirOrder(desc['scandir']) if desc.get('scandir') \
             else contextlib.nullcontext()
         if desc['api'] == 'lib':
+            spelled = sub + '/' if (sub and desc.get('slash')) else sub
+            if spelled != sub:
+                classes.append('trailing-slash')
             with order:
-                oc = gem.verify_lib(root, sub, fail_handler=handler)
+                oc = gem.verify_lib(root, spelled, fail_handler=handler)
             what = (f'assert_directory_verifies({sub!r}, policy '
                     f'{desc["policy"]})')
         else:
